@@ -398,7 +398,7 @@ def _const_fraction(node):
 CLONE_CONTAINERS = ["states", "qstates", "controls", "algebraics", "parameters", "variables", "_state_der", "_state_next", "_alg",
                     "_constraints", "_objective", "_initial", "_placeholders", "_param_vals", "_scale_der", "_offsets", "_method", "_T", "_t0"]
 # containers whose values are expressions that may mention the template's time placeholders (t, T, t0, …)
-CLONE_MUST_SUBSTITUTE = ["_state_der", "_state_next", "_alg", "_constraints", "_objective", "_initial", "_placeholders"]
+CLONE_MUST_SUBSTITUTE = ["_state_der", "_state_next", "_alg", "_constraints", "_objective", "_initial", "_placeholders", "_initial.values"]
 # containers of containers: a shallow copy would share the inner lists between template and clones
 CLONE_MUST_DEEPCOPY = ["parameters", "variables", "_method"]
 
@@ -475,6 +475,23 @@ def clonetable():
                 elif t.attr == "_method" and kinds[t.attr] == "missing":
                     kinds[t.attr] = kind
     tab = {c: (kinds[c], subst[c]) for c in CLONE_CONTAINERS}
+    # the VALUES of the guess map (a guess may be an expression of the template's time): raw `self._initial.values()` handed to the clone's
+    # map, or passed through the substitution first?
+    raw = False
+    renewed = False
+    for node in ast.walk(fn):
+        if isinstance(node, ast.Assign) and len(node.targets) == 1:
+            src = _norm(ast.unparse(node.value))
+            t = node.targets[0]
+            is_ret_initial = isinstance(t, ast.Attribute) and isinstance(t.value, ast.Name) and t.value.id == "ret" and t.attr == "_initial"
+            if "self._initial.values()" in src:
+                uses_helper = any(isinstance(n, ast.Call) and isinstance(n.func, ast.Name) and (n.func.id == "substitute" or n.func.id in helpers)
+                                  for n in ast.walk(node.value))
+                if is_ret_initial and not uses_helper:
+                    raw = True
+                if uses_helper:
+                    renewed = True
+    tab["_initial.values"] = ("built" if kinds.get("_initial") != "missing" else "missing", renewed and not raw)
     L = ["/-! GENERATED by tools/extract.py from /repo/rockit/stage.py (Stage.clone, line %d) — do not edit. -/" % getattr(fn, "lineno", 0),
          "namespace Rockit.Generated", "",
          "inductive CloneKind where", "  | copy | deepcopy | shared | built | renewed | missing", "deriving DecidableEq, Repr", "",
